@@ -663,6 +663,21 @@ func (f *absFrame) evalCall(c *ssa.Call) absVal {
 				return absVal{Kind: "bool", B: rel == want}
 			}
 		}
+		// cmp.Compare is a three-way comparison
+		if funcPkgPath(cal) == "cmp" && strings.HasPrefix(cal.Name(), "Compare") && len(com.Args) == 2 {
+			a, b := f.eval(com.Args[0]), f.eval(com.Args[1])
+			if f.fork != nil || f.fail != nil {
+				return absVal{}
+			}
+			if a.Kind == "int" && b.Kind == "int" {
+				return absVal{Kind: "int", I: sign(a.I - b.I)}
+			}
+			rel, ok := f.ord(f.termFor(a, com.Args[0]), f.termFor(b, com.Args[1]))
+			if !ok {
+				return absVal{}
+			}
+			return absVal{Kind: "int", I: int64(rel) - 1}
+		}
 		// small helpers are executed in place
 		if f.depth < 4 && len(cal.Blocks) > 0 && !hasLoop(cal) && sig.Results().Len() == 1 && !isTestdataOrMock(cal) && strings.HasPrefix(funcPkgPath(cal), modPath) {
 			var ps []absVal
